@@ -90,6 +90,17 @@ MUTANTS = [
     ("C11-bare-name-before-file-prefix", "C11", "compiler.py", 'candidates = (state["internal_symbol_prefix"] + insn.name.name, insn.name.name)', 'candidates = (insn.name.name, ".internal9." + insn.name.name)', 1),
     ("C08-chr-overflow-uncaught", "C08", "types.py", "        except (ValueError, OverflowError):\n            self.reported_error = True", "        except ValueError:\n            self.reported_error = True", 1),
     ("C06-string-chunks-reversed", "C06", "types.py", 'return "".join(get_as_str(state, "string chunk", self, chunk) for chunk in self.chunks)', 'return "".join(get_as_str(state, "string chunk", self, chunk) for chunk in reversed(self.chunks))', 1),
+    ("C05-impure-cache-returns-first", "C05", "operators.py", "        if expr.value is None or expr.value[0] != args:", "        if expr.value is None:", 1),
+    ("C05-caret-D-unicode-digits", "C05", "parser.py", '("^D", "A decimal", r"[0-9]", 10)', '("^D", "A decimal", r"\\d", 10)', 1),
+    ("C12-wait-single-pass", "C12", "deferred.py", "            if not progress or all(key.is_awaiting for key in self.coeffs):", "            if True:", 1),
+    ("C14-include-locale-encoding", "C14", "metacommands.py", 'with open(include_path, "r", encoding="utf-8") as f:', 'with open(include_path, "r") as f:', 1),
+    ("C18-include-locale-encoding", "C18", "metacommands.py", 'with open(include_path, "r", encoding="utf-8") as f:', 'with open(include_path, "r") as f:', 1),
+    ("C07-unused-symbols-not-resolved", "C07", "compiler.py", "        for _, (_, value) in self.symbols.items():\n            wait(value)\n", "", 1),
+    ("C19-bare-word-announces-1", "C19", "metacommands.py", "@metacommand(size=lambda state, *operands: 2 * (len(operands) or 1), alias=\".dw\")", "@metacommand(size=lambda state, *operands: 2 * len(operands) or 1, alias=\".dw\")", 1),
+    ("C04-nested-constant-unscaled", "C04", "deferred.py", "                    new_constant_term += resolved.constant_term * value", "                    new_constant_term += resolved.constant_term", 1),
+    ("C06-repeat-addr", "C06", "metacommands.py", "        if isinstance(chunk, BaseDeferred):\n            addr += chunk.length()\n        else:\n            addr += len(chunk)\n        result += chunk", "        result += chunk", 1),
+    ("C14-tape-name-stripped", "C14", "metacommands.py", "def encode_bk_filename(state, bk_filename):\n    try:", "def encode_bk_filename(state, bk_filename):\n    bk_filename = bk_filename.strip()\n    try:", 1),
+    ("C10-implicit-word-own-address", "C10", "compiler.py", 'words = [get_as_int(state, "implicit word", insn, word, bitness=16, unsigned=False) for word in insn_words]', 'words = [get_as_int({**state, "emit_address": state["emit_address"] + 2 * i}, "implicit word", insn, word, bitness=16, unsigned=False) for i, word in enumerate(insn_words)]', 1),
     # negative controls: semantically neutral edits, every check must stay green
     ("NEG-rename-local", "C06", "metacommand_impl.py", "    value = wait(arg_token.resolve(state))\n\n    if not isinstance(value, int):", "    value = wait(arg_token.resolve(state))\n    _unused = 1\n\n    if not isinstance(value, int):", 0),
     ("NEG-candidate-order", "C03", "types.py", "            state[\"local_symbol_prefix\"] + self.name,\n            state[\"internal_symbol_prefix\"] + self.name\n", "            state[\"internal_symbol_prefix\"] + self.name,\n            state[\"local_symbol_prefix\"] + self.name\n", 0),
